@@ -1,6 +1,8 @@
 package main
 
 import (
+	"runtime"
+	"runtime/debug"
 	"crypto/sha256"
 	"encoding/hex"
 	"encoding/json"
@@ -16,6 +18,9 @@ type taggedScen struct {
 }
 
 func engineMain(prop, tier string, seed uint64, out, replay string) error {
+	// gated runs recognise quiescence from goroutine states: keep the collector from parking
+	// goroutines on its own; collect between scenarios instead
+	debug.SetGCPercent(-1)
 	if replay != "" {
 		return engineReplay(prop, replay, out)
 	}
@@ -50,6 +55,9 @@ func engineEmit(prop, out string, scens []taggedScen, st *stats) error {
 	var jl []any
 	seen := map[string]bool{}
 	for i, ts := range scens {
+		if i%64 == 63 {
+			runtime.GC()
+		}
 		obs := runEngine(ts.sc)
 		c := ECase{ID: i, Scen: ts.sc, Obs: obs, Tags: ts.tags}
 		jl = append(jl, c)
@@ -319,9 +327,10 @@ func genC18(r *rng, tier string, st *stats) []taggedScen {
 							continue
 						}
 						for _, inFlow := range []bool{false, true} {
+						  for conc := 0; conc <= 2; conc++ {
 							b := newSB()
 							x := b.add(NodeDef{Kind: "batch", Impl: impl, Retry: retry(1, 0), Fb: "default",
-								Prep: sh.style, Exec: "res", Post: post, ExplicitCfg: n%2 == 1})
+								Prep: sh.style, Exec: "res", Post: post, ExplicitCfg: n%2 == 1, Conc: conc})
 							if sh.mk != nil {
 								b.script(x, "prep", 0, []Resp{sh.mk(b, n)}, rOk(vNil()))
 							}
@@ -329,7 +338,7 @@ func genC18(r *rng, tier string, st *stats) []taggedScen {
 							if post == "batch" {
 								b.script(x, "post", 0, []Resp{rAct(a)}, rAct(a))
 							}
-							tags := []string{"kind=batch/" + impl, "prep=" + sh.name, fmt.Sprintf("items=%d", n), fmt.Sprintf("post_action=%d", a)}
+							tags := []string{"kind=batch/" + impl, "prep=" + sh.name, fmt.Sprintf("items=%d", n), fmt.Sprintf("post_action=%d", a), fmt.Sprintf("conc=%d", conc)}
 							if inFlow {
 								y := marker(b)
 								z := marker(b)
@@ -340,6 +349,7 @@ func genC18(r *rng, tier string, st *stats) []taggedScen {
 								b.sc.Root = x
 							}
 							add(b, tags, a == 0)
+						  }
 						}
 					}
 				}
